@@ -255,12 +255,15 @@ def json_decoder(obj_dict: dict[str, Any]) -> dict[str, Any] | Object | Alias | 
     Returns:
         An instance of a data class.
     """
+    # Dictionaries of members are keyed by member names, which can be `cls` or `kind`:
+    # only string values denote a serialised expression class or object kind.
+
     # Load expressions.
-    if "cls" in obj_dict:
+    if isinstance(obj_dict.get("cls"), str):
         return _load_expression(obj_dict)
 
     # Load objects and parameters.
-    if "kind" in obj_dict:
+    if isinstance(obj_dict.get("kind"), str):
         try:
             kind = Kind(obj_dict["kind"])
         except ValueError:
